@@ -45,3 +45,43 @@ package jd
 
 //@ contract (jsonObject).Equals
 //@   loop "range o1" invariant forallKey(o1, o1, func(k string) bool { return !visited(k) || (mapHas(o2, k) && specEq(o1[k], o2[k], options)) })
+
+// Rendering helpers: json.Marshal / yaml.Marshal are assumed not to fail on the
+// plain values produced by raw() (maps with string keys, slices, float64, string, bool, nil).
+//@ contract renderJson
+//@   trusted
+//@ contract renderYaml
+//@   trusted
+//@ contract JsonNode.Json
+//@ contract JsonNode.Yaml
+
+// Set and multiset equality is decided by comparing combined hash codes; its agreement with
+// specEq rests on the hash function (see C04) and is checked on a bounded universe only.
+//@ contract (jsonSet).Equals
+//@   bounded
+//@ contract (jsonMultiset).Equals
+//@   bounded
+
+//@ contract patch
+//@   requires validNode(node) && validPath(pathAhead) && validStrategy(strategy)
+//@   requires validNodes(before) && validNodes(oldValues) && validNodes(newValues) && validNodes(after)
+//@   ensures ret1 == nil ==> validNode(ret0)
+//@   ensures strategy == strictPatchStrategy && specListPath(pathAhead) && !specIsContainer(node) ==> (ret1 == nil) == specStrictOK(node, pathAhead, before, oldValues, newValues, after)
+//@   ensures strategy == strictPatchStrategy && specListPath(pathAhead) && !specIsContainer(node) && ret1 == nil ==> specStrictRes(node, pathAhead, oldValues, newValues, ret0)
+//@   carries C03 C13 C01
+
+// Set / multiset patching goes through hash-keyed maps; until its loop invariants are
+// written the interface contract is only evaluated on a bounded universe for these two.
+//@ contract (jsonSet).patch
+//@   bounded
+//@ contract (jsonMultiset).patch
+//@   bounded
+
+//@ contract patchAll
+//@   requires validNode(n) && validDiff(d)
+//@   ensures ret1 == nil ==> validNode(ret0)
+//@   ensures len(d) == 0 ==> ret1 == nil && same(ret0, old(n))
+//@   consumes n
+//@   loop "range d" invariant validNode(n)
+//@   loop "range d" invariant idx == 0 ==> same(n, old(n))
+//@   carries C03 C13 C01
